@@ -296,22 +296,15 @@ static std::string micro_case(const Args& a, long i) {
     gen::TriMesh m2 = gen::icosphere(g.range(0, 1)); gen::jitter(m2, g, 0.05); gen::rotate(m2, gen::rot_random(g)); double s2 = g.uni(0.5, 2); gen::scale(m2, s2, s2, s2);
     gen::TriMesh m1 = gen::icosphere(0); gen::scale(m1, 0.3, 0.3, 0.3); gen::translate(m1, 50, 0, 0);
     V3 off = g.coin(0.5) ? V3() : V3(g.uni(-1, 1), g.uni(-1, 1), g.uni(-1, 1)) * g.logu(1, 1e3); gen::translate(m1, (double)off.x, (double)off.y, (double)off.z); gen::translate(m2, (double)off.x, (double)off.y, (double)off.z);
-    // epithelial on epithelial, one scene in five: the query node is bitwise equidistant from two nodes of the target face (a tetrahedron with the face A(-h,0,0),
-    // B(h,0,0), C(0,c,0) on exact coordinates, no rotation, offset on the same grid), both within the adhesion cut-off, the third node far beyond it
-    const bool tie_scene = cl1 == 0 && cl2 == 0 && g.coin(0.2); double tie_h = 0, tie_y = 0, tie_z = 0;
-    if (tie_scene) { const double u = std::ldexp(1.0, -6); tie_h = u * std::round(0.45 * ca / u); if (tie_h <= 0) tie_h = u; const double cc = u * std::round(40 * ca / u); tie_y = u * g.range(0, 3); tie_z = u * g.range(1, 4) * (g.coin() ? 1 : -1);
-        m2 = gen::TriMesh(); m2.P = {{-tie_h, 0, 0}, {tie_h, 0, 0}, {0, cc, 0}, {0, cc / 3, -cc / 2}}; m2.T = {{0, 1, 2}, {1, 0, 3}, {2, 1, 3}, {0, 2, 3}}; m2.name = "tie_tetra";
-        off = g.coin(0.5) ? V3() : V3(g.range(-8, 8), g.range(-8, 8), g.range(-8, 8)); gen::translate(m2, (double)off.x, (double)off.y, (double)off.z); }
     cell_ptr c1, c2; try { c1 = gen::make_cell_of_class(cl1, m1, 0, t1); c2 = gen::make_cell_of_class(cl2, m2, 1, t2); } catch (const std::exception& e) { c.v = "skip"; return c.line(); }
     c1->set_local_id(0); c2->set_local_id(1); c1->apply_internal_forces(0); c2->apply_internal_forces(0);
-    auto& fl = cell_tester::faces(*c2); size_t fi = g.u64() % fl.size(); if (tie_scene) { fi = 0; for (size_t q = 0; q < fl.size(); q++) { std::set<unsigned> ns = {cell_tester::n1(fl[q]), cell_tester::n2(fl[q]), cell_tester::n3(fl[q])}; if (ns == std::set<unsigned>{0, 1, 2}) fi = q; } } face& f = fl[fi]; f.set_face_type_id((unsigned short)(g.u64() % t2->face_types_.size()));
+    auto& fl = cell_tester::faces(*c2); size_t fi = g.u64() % fl.size(); face& f = fl[fi]; f.set_face_type_id((unsigned short)(g.u64() % t2->face_types_.size()));
     auto& n2l = cell_tester::nodes(*c2); V3 A = vpos(n2l[cell_tester::n1(f)]), B = vpos(n2l[cell_tester::n2(f)]), C = vpos(n2l[cell_tester::n3(f)]);
     V3 nrm = (B - A).cross(C - A); nrm = nrm / nrm.norm();           // outward (cells are oriented outward after initialisation)
     // query point: over a random region of the triangle, signed distance swept from -cmax to +2 cmax
     double u = g.uni(-0.2, 1.2), v = g.uni(-0.2, 1.2); if (g.coin(0.6)) { u = g.uni(0.05, 0.9); v = g.uni(0.05, 0.95 - u > 0.05 ? 0.95 - u : 0.05); }
     double sd = g.uni(-1.0, 2.0) * cmax; if (g.coin(0.1)) sd = (g.coin() ? 1 : -1) * cmax * (1 + g.uni(-1e-6, 1e-6));
     V3 pq = A + (B - A) * u + (C - A) * v + nrm * sd;
-    if (tie_scene) pq = V3((double)off.x, (double)off.y + tie_y, (double)off.z + tie_z);   // x = the bisector plane of A and B
     auto& n1l = cell_tester::nodes(*c1); node& n = n1l[0]; cell_tester::pos(n).reset((double)pq.x, (double)pq.y, (double)pq.z); V3 p = vpos(n);
     for (cell_ptr cc : {c1, c2}) for (node& x : cell_tester::nodes(*cc)) if (x.is_used()) x.set_force(vec3(0, 0, 0));
 #if CONTACT_MODEL_INDEX != 0
